@@ -1,22 +1,5 @@
-# Per-property configuration of bin/check.
-PROPS = {
-    "C13": {
-        "props_files": ["Props/C13.v"],
-        "technique": "Coq proof (induction with a potential function) that the two-pointer LIKE matcher and the LIKE rewriting decide the inductive LIKE relation; exhaustive small-scope + random correspondence with the three Go matchers and SQL paths",
-        "level_text": "Theorems for all byte strings: like_match t p = true <-> Like p t (matcher, with termination bound) and eval(convert p) t = true <-> Like p t (rewriting), IS NULL truth table. The Go matchers are tied to the model by exhaustive comparison on all pairs up to length 4/5 plus random pairs, the rewriting by exhaustive comparison of convertLikeToFunction's output, and WHERE/CASE/HAVING by SQL-level runs judged by the extracted spec.",
-        "level_note": "Trusted: Coq kernel, extraction (ExtrOcamlBasic), OCaml driver, Go harness; expr-lang string operators are modelled (contains/startsWith/endsWith) and validated at SQL level each run. Bytes, not runes. SELECT-list bare boolean LIKE is not an evaluation path of the engine (returns NULL) and is not covered.",
-        "rule": "matchers: ALL (text,pattern) pairs over {%,_,a,b,.} up to length 4 (quick) / 5 (thorough) through the three "
-                "real matchers + random longer wildcard-heavy pairs (regex metacharacters, UTF-8 bytes); rewriting: ALL patterns "
-                "up to length 5/6 through convertLikeToFunction; SQL level: WHERE / CASE / HAVING for a pattern pool x texts incl. "
-                "NULL and absent; IS [NOT] NULL in WHERE/CASE/HAVING. non-trivial = the pattern contains a wildcard and the text "
-                "is non-empty, or an SQL-level case; distinct = distinct case lines",
-        "trusted_base": [
-            "model: coq/Model/Like.v (two-pointer matcher with fuel, convertLikeToFunction case split); spec: inductive relation Like in Proofs/LikeRewrite.v",
-            "modelled not verified: expr-lang operators contains/startsWith/endsWith/==/!= nil on strings (validated every run at SQL level)",
-        ],
-        "assumptions": [
-            "Go strings are byte strings; '_' matches one byte (the code indexes bytes)",
-            "a NULL result of CASE WHEN x LIKE p on a missing column is read as 'LIKE not true' (the CASE/NULL rule is C06's)",
-        ],
-    },
-}
+# Per-property configuration of bin/check: one JSON file per property under bin/props.d/.
+import json, os, glob
+PROPS = {}
+for _f in sorted(glob.glob(os.path.join(os.path.dirname(os.path.abspath(__file__)), "props.d", "*.json"))):
+    PROPS[os.path.basename(_f)[:-5]] = json.load(open(_f))
